@@ -3,8 +3,9 @@
   beyond the proxy.  Core-only.
 
   Anchors (forwarder):
-    http_proxy_errors.go            errorResponse + the twelve handlers, in order
-    internal/martian/proxy_conn.go  handle, writeErrorResponse, writeResponse
+    http_proxy_errors.go            errorResponse + the fourteen handlers, in order
+    internal/martian/proxy_conn.go  handle, handleUpgradeResponse, writeErrorResponse, writeResponse
+    internal/martian/proxyutil/proxyutil.go  NewResponse, SetProto (the protocol version of a generated response)
     internal/martian/proxy.go       handleLoop (maxConsecutiveErrors), roundTrip
     internal/martian/errors.go      isClosedConnError, isCloseable, ErrorStatus
     internal/martian/proxy_connect.go  connectHTTP, OnProxyConnectResponse, maybeConnectErrorResponse
@@ -21,7 +22,7 @@
   §6  `writeResponse`: the writer selection (CONNECT-OK literal / header-only writer / SSE flush writer /
       chunk flush writer / plain) as a total function of (request method, status, header), which writers
       read the body, and what `handle` makes of an accepted upstream reply (`relay`, incl. the `panicBody`
-      sentinel of `handleUpgradeResponse`).
+      sentinel of `handleUpgradeResponse` and the 502 for a `101` that is no protocol switch).
 -/
 import FwdVerif.Model.Resp
 
@@ -61,6 +62,9 @@ structure ErrShape where
   prohibited : Bool := false                  -- errors.As(prohibitedError)
   canceled : Bool := false                    -- errors.Is(context.Canceled)
   statusText : Option Nat := none             -- first i in [400,600) with http.StatusText(i) == err.Error()
+  timeout : Bool := false                     -- errors.As(net.Error) && .Timeout()  (context.DeadlineExceeded, net/http's
+                                              --   time-out errors, every *net.OpError whose Timeout() holds)
+  eof : Bool := false                         -- errors.Is(io.EOF) || errors.Is(io.ErrUnexpectedEOF)
   deriving DecidableEq, Repr
 
 /-- (code, label); code 0 = "not mine, ask the next handler" -/
@@ -122,12 +126,23 @@ def handleStatusText : Handler := fun https e =>
     | none => pass
   else pass
 
+/-- any error that is a time-out and that none of the handlers before claimed: `context.DeadlineExceeded`
+    (an upstream proxy that does not answer CONNECT within `ConnectTimeout`), `net/http: TLS handshake
+    timeout`, `net/http: timeout awaiting response headers` -/
+def handleTimeoutError : Handler := fun _ e =>
+  if e.timeout then (504, "timeout") else pass
+
+/-- the remote host closed the connection before a complete reply: in the TLS handshake, instead of a
+    response, inside the response head where the bytes so far are well-formed -/
+def handleEOFError : Handler := fun _ e =>
+  if e.eof then (502, "unexpected_eof") else pass
+
 /-- the list of `errorResponse`, in code order -/
 def handlers : List Handler :=
   [handleWindowsNetError, handleNetError, handleTLSRecordHeader, handleTLSCertificateError,
    handleTLSECHRejectionError, handleTLSAlertError, handleMartianErrorStatus,
    handleAuthenticationError, handleDenyError, handleProhibitedError,
-   handleContextCancelationError, handleStatusText]
+   handleContextCancelationError, handleStatusText, handleTimeoutError, handleEOFError]
 
 /-- `for _, h := range handlers { code, msg, label = h(req, err); if code != 0 { break } }` -/
 def firstVerdict : List Handler → Bool → ErrShape → Verdict
@@ -175,12 +190,12 @@ inductive ErrKind where
   deriving DecidableEq, Repr
 
 def shapeOf : ErrKind → ErrShape
-  | .opError op t => { opError := some (op, t) }
-  | .opChain outer _ t => { opError := some (outer, t) }
-  | .dns t => { opError := some (.dial, t) }
+  | .opError op t => { opError := some (op, t), timeout := t }
+  | .opChain outer _ t => { opError := some (outer, t), timeout := t }
+  | .dns t => { opError := some (.dial, t), timeout := t }
   | .connRefused => { opError := some (.dial, false) }
   | .connReset => { opError := some (.read, false) }
-  | .unexpectedEOF => {}
+  | .unexpectedEOF => { eof := true }
   | .tlsRecordHeader b => { recordHeader := some b }
   | .tlsCertificate => { certVerification := true }
   | .tlsECHRejection => { echRejection := true }
@@ -188,17 +203,17 @@ def shapeOf : ErrKind → ErrShape
   | .tlsAlertRemote => { opError := some (.remoteError, false), alert := true }
   | .tlsAlertLocal => { opError := some (.localError, false), alert := true }
   | .tlsGeneric => {}
-  | .tlsHandshakeTimeout => {}
+  | .tlsHandshakeTimeout => { timeout := true }        -- `tlsHandshakeTimeoutError`: a `net.Error`, `Timeout()` true
   | .martianStatus s => { errorStatus := some s }
   | .proxyAuth => { proxyAuth := true }
   | .denied => { deny := true }
   | .prohibited => { prohibited := true }
   | .ctxCanceled => { canceled := true }
-  | .ctxDeadline => {}
+  | .ctxDeadline => { timeout := true }                -- `context.DeadlineExceeded` implements `net.Error`
   | .connectRejected _ => {}               -- "proxy connect error: 403 Forbidden": no handler knows it
   | .statusTextError s _ => { statusText := some s }
   | .malformedResponse => {}
-  | .responseHeaderTimeout => {}
+  | .responseHeaderTimeout => { timeout := true }      -- `httpError{timeout: true}`
   | .other => {}
 
 def ErrKind.https : ErrKind → Bool
@@ -232,7 +247,8 @@ def respStatus (k : ErrKind) : Nat := (errorWritten k).status
 /-- facts of the client's request that the error path uses -/
 structure ReqFacts where
   name : Bytes                 -- hp.config.Name
-  minor : Nat := 1             -- HTTP/1.<minor> of the request (NewResponse copies the request's protocol)
+  major : Nat := 1             -- HTTP/<major>.<minor> of the request line (`http.ReadRequest` accepts any digits:
+  minor : Nat := 1             --   `PRI * HTTP/2.0`, `GET … HTTP/1.7`)
   close : Bool := false        -- req.Close
   isConnect : Bool := false
   rules : List Rule := []      -- --response-header rules (skipped for CONNECT)
@@ -249,6 +265,12 @@ structure GoResp where
 
 def xfeName : Bytes := bs "X-Forwarder-Error"
 
+/-- `proxyutil.SetProto` (used by `NewResponse` and by the CONNECT-rejection relay of `writeErrorResponse`):
+    the response takes the protocol version of the request when that is HTTP/1.0 or HTTP/1.1 and is
+    HTTP/1.1 otherwise — the minor version of the `HTTP/1.x` it is written with -/
+def respMinor (rq : ReqFacts) : Nat :=
+  if rq.major == 1 && (rq.minor == 0 || rq.minor == 1) then rq.minor else 1
+
 /-- `errorResponse`: body = name SP msg LF err LF; `X-Forwarder-Error: name SP err`;
     `Content-Type`; `Proxy-Authenticate` for 407; `ContentLength = body.Len()` -/
 def errorResponse (rq : ReqFacts) (status : Nat) (msg errText : Bytes) : GoResp :=
@@ -257,7 +279,7 @@ def errorResponse (rq : ReqFacts) (status : Nat) (msg errText : Bytes) : GoResp 
   let h1 := if status == 407 then goSet h0 (bs "Proxy-Authenticate") (bs "Basic realm=\"" ++ rq.name ++ bs "\"") else h0
   let h2 := goSet h1 xfeName (rq.name ++ [32] ++ errText)
   let h3 := goSet h2 (bs "Content-Type") (bs "text/plain; charset=utf-8")
-  { status := status, minor := rq.minor, header := h3, body := body, contentLength := body.length,
+  { status := status, minor := respMinor rq, header := h3, body := body, contentLength := body.length,
     close := rq.close }
 
 /-- `p.modifyResponse(res)`: the inner group (response rules; not for CONNECT) then hop-by-hop removal -/
@@ -293,11 +315,11 @@ def writtenError (closing : Bool) (rq : ReqFacts) (status : Nat) (msg errText : 
     `OnProxyConnectResponse` built it from the upstream proxy's reply to the transport's own CONNECT —
     status `status`, `Header = connectRes.Header.Clone()` (`up`), the body it could read (`body`, empty
     when the reply announced none or was torn), `ContentLength = len(body)` — and `writeErrorResponse`
-    now hands it to the client's request: `res.Request = req`, `res.Proto* = req.Proto*`.  Nothing of
+    now hands it to the client's request: `res.Request = req`, `proxyutil.SetProto(res, req)`.  Nothing of
     forwarder's own is added: no `X-Forwarder-Error` unless the upstream proxy sent one.
     (Statuses that admit a body: `writeResponse` below writes `Content-Length` also when it is 0.) -/
 def relayResponse (rq : ReqFacts) (status : Nat) (up : HMap) (body : Bytes) : GoResp :=
-  { status := status, minor := rq.minor, header := up, body := body, contentLength := body.length,
+  { status := status, minor := respMinor rq, header := up, body := body, contentLength := body.length,
     close := rq.close }
 
 /-- the whole path of `writeErrorResponse` for a relayed transport-level CONNECT rejection: the
@@ -380,15 +402,18 @@ def TLSFault.errKind : TLSFault → ErrKind
 inductive ConnectReply where
   | rejected (s : Nat) (framed : Bool)   -- non-2xx with (framed) or without a Content-Length
   | rejectedCut (s n k : Nat)            -- non-2xx announcing n body bytes, k < n of them, then close
-  | cut (k : Nat) (reset surfaces : Bool)
+  | cut (k : Nat) (reset surfaces eof : Bool)
   | malformed
   | timeout
   deriving DecidableEq, Repr
 
-/-- Fault points.  `surfaces` and `lost` are the nondeterminism of the byte-level readers:
+/-- Fault points.  `surfaces`, `eof` and `lost` are the nondeterminism of the byte-level readers:
     whether a reset that follows bytes already read is reported as such or swallowed by bufio
-    (then the next read sees EOF), and how many payload bytes that the proxy had read are not relayed
-    before the read error ends the copy. -/
+    (then the next read sees EOF); whether `http.ReadResponse` finds the `k > 0` bytes of a torn head
+    well-formed as far as they go and reports the end of input (`io.ErrUnexpectedEOF`: the cut falls
+    behind a complete line or behind the colon of a field line) or takes the last, partial line for a
+    malformed one; and how many payload bytes that the proxy had read are not relayed before the read
+    error ends the copy. -/
 inductive Fault where
   | none
   | dialRefused | dialTimeout
@@ -397,15 +422,16 @@ inductive Fault where
   | dialReset (op : NetOp)
   | tls (f : TLSFault)
   | connectReply (r : ConnectReply)
-  | headCut (k : Nat) (reset surfaces : Bool)       -- k < headLen bytes of the reply head, then close
+  | headCut (k : Nat) (reset surfaces eof : Bool)   -- k < headLen bytes of the reply head, then close
   | headMalformed                                    -- complete but unparsable / conflicting / oversized head
   | bodyCut (k : Nat) (reset : Bool) (lost : Nat)    -- whole head, k payload bytes, then close
   deriving DecidableEq, Repr
 
 /-- error of a reply that ends after `k` bytes of its head -/
-def cutErr (k : Nat) (reset surfaces : Bool) : ErrKind :=
+def cutErr (k : Nat) (reset surfaces eof : Bool) : ErrKind :=
   if k == 0 then (if reset then .connReset else .unexpectedEOF)
-  else if reset && surfaces then .connReset else .malformedResponse
+  else if reset && surfaces then .connReset
+  else if eof then .unexpectedEOF else .malformedResponse
 
 def usesTLS (ex : Exchange) : Bool := ex.kind == .httpsGet || ex.kind == .mitm
 
@@ -500,11 +526,11 @@ def faultErr (f : Fault) (ex : Exchange) : Option ErrKind :=
       | .rejected s _ => if ex.kind == .connect then none else some (.connectRejected s)
       -- `OnProxyConnectResponse` cannot read the body, relays the status with an empty one
       | .rejectedCut s _ _ => if ex.kind == .connect then none else some (.connectRejected s)
-      | .cut k reset surfaces => some (cutErr k reset surfaces)
+      | .cut k reset surfaces eof => some (cutErr k reset surfaces eof)
       | .malformed => some .malformedResponse
       | .timeout => some (if ex.kind == .connect then .ctxDeadline else .other)
     else none
-  | .headCut k reset surfaces => if ex.kind == .connect then none else some (cutErr k reset surfaces)
+  | .headCut k reset surfaces eof => if ex.kind == .connect then none else some (cutErr k reset surfaces eof)
   | .headMalformed => if ex.kind == .connect then none else some .malformedResponse
   | .bodyCut _ _ _ => none
 
@@ -567,7 +593,7 @@ def Fault.rejectionStatus : Fault → Option Nat
 def Fault.wf (f : Fault) (ex : Exchange) : Bool :=
   (match ex.framing with | .cl n => n == ex.bodyLen | _ => true) &&
   match f with
-  | .headCut k _ _ => k < ex.headLen
+  | .headCut k _ _ _ => k < ex.headLen
   | .connectReply (.rejectedCut _ n k) => k < n
   | .bodyCut k _ lost =>
     lost ≤ k && (match ex.framing with
@@ -785,7 +811,9 @@ inductive BodyAtWrite where
 /-- what becomes of an upstream reply that the transport accepted -/
 inductive Relayed where
   | wrote (w : Writer) (tunnelFollows : Bool)
-  | closedWithoutResponse     -- `errClose` before a byte was written
+  /-- `writeErrorResponse`: the reply is not passed on, the client gets a generated error response -/
+  | answeredError (status : Nat) (label : String)
+  | closedWithoutResponse     -- `errClose` before a byte was written (no path of `handle` from an accepted reply on does that)
   | panicked                  -- `panic("unexpected read")` in the connection's goroutine: the process dies
   deriving DecidableEq, Repr
 
@@ -794,10 +822,15 @@ inductive Relayed where
 def protocolSwitch (status : Nat) (h : HMap) : Bool :=
   status == 101 && !(Req.upgradeType h).isEmpty
 
-/-- `roundTrip` + `handle`: the body with which `writeResponse` is entered (`none`: it is not entered).
+/-- `errNoProtocolSwitch`: the `ErrorStatus{…, 502}` with which `handleUpgradeResponse` answers a `101`
+    reply that is no protocol switch -/
+def noProtocolSwitchErr : ErrKind := .martianStatus 502
+
+/-- `roundTrip` + `handle`: the body with which `writeResponse` is entered for the upstream's reply
+    (`none`: it is not entered for it).
     * a header-only response other than 101 has its body replaced by `NoBody` (`roundTrip`);
-    * 101: `handleUpgradeResponse` — a body that is not writable ends the connection
-      (`switching protocols response with non-writable body`), a writable one is replaced by `panicBody`. -/
+    * 101: `handleUpgradeResponse` — a body that is not writable (the reply is no protocol switch) is
+      answered with the error response of `errNoProtocolSwitch`, a writable one is replaced by `panicBody`. -/
 def bodyAtWrite (method : Bytes) (status : Nat) (h : HMap) : Option BodyAtWrite :=
   if status == 101 then
     if protocolSwitch status h then some .panicSentinel else none
@@ -807,7 +840,7 @@ def bodyAtWrite (method : Bytes) (status : Nat) (h : HMap) : Option BodyAtWrite 
 /-- `handle` from the accepted reply on, with the writer selection `sel` -/
 def relayWith (sel : Selector) (method : Bytes) (status : Nat) (h : HMap) (r : ResFacts) : Relayed :=
   match bodyAtWrite method status h with
-  | none => .closedWithoutResponse
+  | none => .answeredError (classify noProtocolSwitchErr).1 (classify noProtocolSwitchErr).2
   | some b =>
     let w := sel method status h r
     if w.readsBody && b == .panicSentinel then .panicked
